@@ -137,6 +137,17 @@ def run_history(hist):
                 else:
                     getattr(c, h['k'])(h['a'] - 1, h['b'] - 1)
                 ev.append(dict(op='app', k=h['k'], a=h['a'], b=h['b']))
+            elif h['op'] in ('qry', 'apply') and not c.gate_index_list:
+                ev.append(dict(op='noqry'))        # precondition of a query fails (the generator drew only identities so far): the specification must agree
+            elif h['op'] == 'rnd':
+                before = len(c.gate_index_list)
+                if h['b'] == 0:
+                    c.random_one_qubit_gate(h['a'] - 1)
+                else:
+                    c.random_two_qubit_gate(h['a'] - 1, h['b'] - 1)
+                new = list(c.gate_index_list[before:])           # the appended entry is the logged field that binds the generator's choice
+                ent = list(new[0]) + [-1] if new else ['I', h['a'] - 1, h['b'] - 1]
+                ev.append(dict(op='rnd', a=h['a'], b=h['b'], count=len(new), k=str(ent[0]), ra=int(ent[1]) + 1, rb=int(ent[2]) + 1))
             elif h['op'] == 'qry':
                 r, S = c.to_symplectic_form()
                 ev.append(dict(op='qry', n=int(c.num_qubit), r=li(r), S=[li(v) for v in S]))
@@ -153,20 +164,28 @@ def run_history(hist):
     return ev
 
 
-def random_history(rng, nq, length):
+def random_history(rng, nq, length, with_rnd=False):
     hist = []
     for _ in range(length):
         u = rng.random()
-        if u < 0.55 or not hist:
+        if u < (0.50 if with_rnd else 0.55) or not hist:
             if rng.random() < 0.5 or nq == 1:
                 hist.append(dict(op='app', k=rng.choice(G1), a=rng.randint(1, nq), b=0))
             else:
                 a, b = rng.sample(range(1, nq + 1), 2)
                 hist.append(dict(op='app', k=rng.choice(G2), a=a, b=b))
+        elif u < 0.62 and with_rnd:
+            if rng.random() < 0.5 or nq == 1:
+                hist.append(dict(op='rnd', a=rng.randint(1, nq), b=0))
+            else:
+                a, b = rng.sample(range(1, nq + 1), 2)
+                hist.append(dict(op='rnd', a=a, b=b))
         elif u < 0.75:
             hist.append(dict(op='qry'))
+        elif u < 0.92 and with_rnd:
+            hist.append(dict(op='apply', a=rng.randint(1, 3)))      # the Pauli is sized from the object's num_qubit at run time
         elif u < 0.92:
-            n = max(max(h.get('a', 0), h.get('b', 0)) for h in hist if h['op'] == 'app')
+            n = max(max(h.get('a', 0), h.get('b', 0)) for h in hist if h['op'] in ('app', 'rnd'))
             hist.append(dict(op='apply', p=[rng.randrange(2) for _ in range(2 * n + 2)]))
         else:
             hist.append(dict(op='export'))
@@ -181,7 +200,7 @@ def classify(hist, l):
     for o in ops[:-1]:
         if o in ('qry', 'apply'):
             seen_q = True
-        if o == 'app' and seen_q:
+        if o in ('app', 'rnd') and seen_q:
             stale = True
     return 'append-after-query' if stale else 'fresh'
 
@@ -284,6 +303,19 @@ def run(ctx):
     for i in range(300 if quick else 3000):
         rh.append(random_history(rng, rng.randint(1, 4), rng.randint(3, 40)))
     validate_histories(ctx, rh, 'random')
+    # generator-chosen gates (random_one_qubit_gate / random_two_qubit_gate) interleaved with queries: exhaustive short histories of the
+    # q4r instance and random long ones; the gate drawn is read back from the gate list and bound to the RandomGate action
+    r = tlc.run('pauli/MC_CliffordCircuit.tla', 'pauli/MC_CliffordCircuit_q4r.cfg', dump=True, timeout=3000)
+    ctx.add_model('MC_CliffordCircuit(len<=4,{H}+random helpers)', r)
+    seen = set()
+    hr = []
+    for st in tlc.parse_dump(r):
+        if st['hist'] and any(h['op'] == 'rnd' for h in st['hist']) and repr(st['hist']) not in seen:
+            seen.add(repr(st['hist']))
+            hr.append(st['hist'])
+    for i in range(150 if quick else 1500):
+        hr.append(random_history(rng, rng.randint(1, 4), rng.randint(3, 30), with_rnd=True))
+    validate_histories(ctx, hr, 'random-helpers')
     validate_repo_tests(ctx)
 
 
